@@ -139,6 +139,7 @@ def run(ctx):
     ctx.floor('binary methods checked for operand use', sum(1 for o in ctx.obligations if o.rule == 'operands'), 7)
 
     check_out_callsites(ctx)
+    check_out_writes(ctx, methods)
     check_axes_primitive(ctx)
     check_clique_vector(ctx)
     from .C15 import none_tests
@@ -172,6 +173,28 @@ def check_init(ctx, fi, ty):
     ok = v.kind == 'arr' and v.a == ('param', dom_src[1])
     ctx.ob('construct', fi, s, ok, 'stored values laid out by %s, stored domain is `%s`'
            % (show(v.a) if v.kind == 'arr' else 'an untyped expression', dom_src[1]))
+
+
+def check_out_writes(ctx, methods):
+    """`out=`: the result is written INTO the storage of the factor handed in.  Rebinding `out.values` makes `out` share (or replace) an
+    array instead: the buffer the caller holds is never written, and `out` and the source change together afterwards."""
+    n = 0
+    for name, fi in methods.items():
+        if 'out' not in fi.params:
+            continue
+        for s_ in ast.walk(fi.node):
+            tgts = s_.targets if isinstance(s_, ast.Assign) else [s_.target] if isinstance(s_, (ast.AugAssign, ast.AnnAssign)) else []
+            for t in tgts:
+                for el in (t.elts if isinstance(t, (ast.Tuple, ast.List)) else [t]):
+                    if isinstance(el, ast.Attribute) and U(el.value) == 'out' and el.attr == 'values' and isinstance(s_, ast.Assign):
+                        n += 1
+                        ctx.ob('out-contract', fi, s_, False,
+                               '`%s` rebinds the array of the factor passed as out= instead of writing into it (np.copyto / out.values[...] = / '
+                               'np.f(.., out=out.values)): the caller\'s buffer stays as it was and `out` aliases `%s`' % (U(s_)[:60], U(s_.value)[:40]))
+                    elif isinstance(el, ast.Subscript) and U(el.value) == 'out.values':
+                        n += 1
+                        ctx.ob('out-contract', fi, s_, True, 'the result is stored into the array of the factor passed as out=')
+    return n
 
 
 def check_out_callsites(ctx):
